@@ -45,7 +45,7 @@ Ltac mono_tac :=
 Lemma mstep_mono m o c :
   N.testbit (m_viol m) c = true -> N.testbit (m_viol (mstep m o)) c = true.
 Proof.
-  intros H. destruct o; cbn [mstep]; try exact H; mono_tac.
+  intros H. destruct o; cbn [mstep]; try unfold mev; try exact H; mono_tac.
 Qed.
 
 Lemma mon_run_mono tr : forall m c,
